@@ -640,8 +640,11 @@ fn gen_history(rng: &mut Rng, long: bool) -> Vec<Req> {
     let mut nclosed = 0u64;
     for v in 0..nvariants {
         // removals first or interleaved
-        let nrm = if v == 0 { 0 } else { rng.below(1 + cur.len().min(4)) };
-        let nadd = if v == 0 { 1 + rng.below(max_adds) } else { rng.below(max_adds + 1) };
+        // now and then a variant that ends up empty: everything live is removed and nothing is added
+        // (also as the first variant), followed by other variants like any other
+        let empty_out = rng.chance(7);
+        let nrm = if v == 0 { 0 } else if empty_out { cur.len() } else { rng.below(1 + cur.len().min(4)) };
+        let nadd = if empty_out { 0 } else if v == 0 { 1 + rng.below(max_adds) } else { rng.below(max_adds + 1) };
         let mut ops: Vec<u8> = Vec::new();
         ops.extend(std::iter::repeat(0u8).take(nadd));
         ops.extend(std::iter::repeat(1u8).take(nrm));
